@@ -1,4 +1,5 @@
 import Summer.Props.C17Strat
+import Summer.Props.C17GlueReq
 /-
 C03 / C04 / C06 / C12 / C15 / C17 — the models the SOURCE TEXT of the build API can produce are exactly the models of the hand model.
 
